@@ -76,9 +76,7 @@ INVALID_N = {
     "n_float": (lambda e: 3.0, ("TypeError",)),
     "n_str": (lambda e: "3", ("TypeError",)),
     "n_tuple": (lambda e: (3,) * e, ("TypeError",)),
-    "n_bool": (lambda e: True, ("TypeError",)),
     "n_list_float": (lambda e: [2.0] * e, ("TypeError",)),
-    "n_list_bool": (lambda e: [True] * e, ("TypeError",)),
     "n_zero": (lambda e: 0, ("ValueError",)),
     "n_negative": (lambda e: -2, ("ValueError",)),
     "n_list_zero": (lambda e: [0] * e, ("ValueError",)),
@@ -221,7 +219,7 @@ def check_sample(w, st, nid, net, rec, S, msgs):
                                  "got": type(S).__name__, "len": len(S) if hasattr(S, "__len__") else None})]
     for k in range(e):
         a = S[k]
-        if not isinstance(a, np.ndarray) or a.ndim != 2 or a.shape != (rows[k], p) or a.dtype.kind != "f":
+        if not isinstance(a, np.ndarray) or a.ndim != 2 or a.shape != (rows[k], p):
             found.append(("shape", site, {"env": k, "expected": [rows[k], p],
                                           "got": list(getattr(a, "shape", ())), "dtype": str(getattr(a, "dtype", None))}))
     if found:
@@ -285,20 +283,26 @@ def check_sample(w, st, nid, net, rec, S, msgs):
                 found.append(("predict_protocol", site, {"env": k, "var": i, "what": "no predict message to the forest "
                                                          "fitted for this variable and environment"}))
                 continue
+            index = []
+            for m in cand:
+                Q = m[2]
+                if Q.shape[1] != len(pa):
+                    continue
+                rowmap = {}
+                for q, row in enumerate(Q.tolist()):
+                    rowmap.setdefault(tuple(row), []).append(q)
+                index.append((m, rowmap, {}))
             for r in range(rows[k]):
-                target = S[k][r, pa]
-                val = S[k][r, i]
+                target = tuple(S[k][r, pa].tolist())
+                val = float(S[k][r, i])
                 ok = False
                 seen_row = False
-                for m in cand:
-                    Q, Wt = m[2], m[3]
-                    if Q.shape[1] != len(pa):
-                        continue
-                    hits = np.where((Q == target).all(axis=1))[0]
-                    for q in hits:
+                for m, rowmap, allowed in index:
+                    for q in rowmap.get(target, ()):
                         seen_row = True
-                        Y = fits[m[1]][3][:, 0]
-                        if val in set(Y[Wt[q] > 0].tolist()):
+                        if q not in allowed:
+                            allowed[q] = set(fits[m[1]][3][:, 0][m[3][q] > 0].tolist())
+                        if val in allowed[q]:
                             ok = True
                             break
                     if ok:
@@ -331,7 +335,8 @@ def h_net_sample(w, st, rec):
     fired0 = peer().fired
     log0 = len(peer().log)
     npre = digest(n)
-    out = w.call(lambda: obj.sample(n, random_state=rec.get("seed")))
+    seed = dec(rec.get("seed"))
+    out = w.call(lambda: obj.sample(n, random_state=seed))
     peer().disarm()
     failed_peer = peer().fired > fired0
     msgs = peer().log[log0:]
@@ -386,8 +391,10 @@ def h_net_sample(w, st, rec):
             nontrivial = differ and bool(f["between"] & {"rng", "lib", "sample"})
             if nontrivial:
                 w.probes["seeded_pair.nontrivial"] += 1
-                if rec["seed"] == 0:
+                if G.seed_value(rec["seed"]) == 0:
                     w.probes["seeded_pair.seed0"] += 1
+                if G.seed_is_numpy(rec["seed"]):
+                    w.probes["seeded_pair.numpy_integer_seed"] += 1
                 if "rng.reseed" in f["between"]:
                     w.probes["seeded_pair.sep.global_reseed"] += 1
                 if peer().k >= 2 and len(net["sources"]) < net["p"]:
@@ -410,7 +417,7 @@ def h_net_sample(w, st, rec):
             peer().arm("predict", k)
             f0 = peer().fired
             l0 = len(peer().log)
-            o2 = w.call(lambda: obj.sample(n, random_state=rec.get("seed")))
+            o2 = w.call(lambda: obj.sample(n, random_state=seed))
             peer().disarm()
             w.probes["sweep.peer_fault_positions"] += 1
             if peer().fired > f0:
@@ -420,7 +427,7 @@ def h_net_sample(w, st, rec):
                 for cls, s2, detail in check_sample(w, st, rec["net"], net, dict(rec, n=n), o2[1], peer().log[l0:]):
                     w.violate("wrong_data_after_peer_fault", s2, dict(detail, underlying=cls, failed_message=k))
         if M and rec.get("seed") is not None:
-            o3 = w.call(lambda: obj.sample(n, random_state=rec["seed"]))
+            o3 = w.call(lambda: obj.sample(n, random_state=seed))
             if o3[0] != "ok" or digest(o3[1]) != digest(S):
                 w.violate("seeded_sample_differs", site, {"what": "network not as usable as before after peer failures",
                                                           "seed": rec["seed"]})
@@ -430,7 +437,7 @@ def h_net_sample(w, st, rec):
 def note_probes(w, st, net, rec, msgs):
     if len(set(net["Ns"])) == 1 and net["e"] >= 2:
         w.probes["equal_sized_environments"] += 1
-    if rec.get("seed") == 0:
+    if G.seed_value(rec.get("seed")) == 0:
         w.probes["seed0"] += 1
     n = rec.get("n")
     w.probes["n:" + ("none" if n is None else "int" if isinstance(n, int) else "list")] += 1
@@ -607,14 +614,17 @@ def gen_data(g, p, e, equal_sizes, unique):
 def gen_config(g):
     all_faults = ["rng", "lib.call", "caller.scribble_input", "caller.scribble_output", "call.invalid", "peer.error", "gc"]
     faults = [] if g.random() < 0.25 else [f for f in all_faults if g.random() < 0.7]
-    return {"length": g.randint(6, 30), "pmax": g.randint(1, 6), "nets": g.randint(1, 2),
+    big = g.random() < 0.05
+    return {"length": g.randint(6, 30) if not big else g.randint(5, 10),
+            "pmax": g.randint(1, 6) if not big else g.randint(9, 13), "big": big,
+            "nbig": g.random() < 0.04, "nets": g.randint(1, 2) if not big else 1,
             "peer": {"k": g.choice([1, 1, 2, 3, 4]), "slack": g.random() < 0.2},
             "faults": faults, "fault_rate": g.choice([0.1, 0.2, 0.3]), "clients": g.randint(1, 3),
-            "seeds": [0, g.choice([1, 7, 42]), g.getrandbits(32)]}
+            "seeds": G.seed_alphabet(g)}
 
 
 def gen_net(g, cfg, nid):
-    p = g.randint(1, cfg["pmax"])
+    p = g.randint(1, cfg["pmax"]) if not cfg.get("big") else cfg["pmax"]
     e = g.randint(1, 3)
     graph = gen_graph(g, p)
     data = gen_data(g, p, e, equal_sizes=g.random() < 0.4, unique=g.random() < 0.85)
@@ -622,7 +632,11 @@ def gen_net(g, cfg, nid):
             "verbose": g.random() < 0.15}, {"p": p, "e": e, "Ns": [len(d) for d in data]}
 
 
-def gen_n(g, meta):
+def gen_n(g, meta, cfg=None):
+    if cfg is not None and cfg.get("nbig") and g.random() < 0.25:
+        # more rows than any batch / cache threshold a wrapper is likely to use
+        big = g.choice([300, 1001, 1002, 1537])
+        return big if g.random() < 0.5 else [g.randint(1, 20) for _ in range(meta["e"] - 1)] + [big]
     r = g.random()
     if r < 0.35:
         return None
@@ -659,11 +673,13 @@ def generate(run_seed):
         nid = sc.choice(sorted(nets))
         meta = nets[nid]
         if r < 0.3:
-            rec = {"c": c, "op": "net.sample", "net": nid, "n": gen_n(g, meta), "seed": g.choice(cfg["seeds"] + [None])}
+            rec = {"c": c, "op": "net.sample", "net": nid, "n": gen_n(g, meta, cfg), "seed": g.choice(cfg["seeds"] + [None])}
             if g.random() < 0.5:
                 nres += 1
                 rec["keep"] = "r%d" % nres
-            if "peer.error" in faults and g.random() < cfg["fault_rate"]:
+            nn = rec["n"]
+            if "peer.error" in faults and g.random() < cfg["fault_rate"] and not cfg.get("big") and \
+                    (nn is None or (isinstance(nn, int) and nn <= 40) or (isinstance(nn, list) and max(nn) <= 40)):
                 rec["sweep"] = True
             ops.append(rec)
             if rec["seed"] is not None:
@@ -690,7 +706,7 @@ def generate(run_seed):
                 ops.append({"c": c, "op": "np.perturb", "kind": "draw", "dist": g.choice(["normal", "choice", "uniform"]),
                             "n": g.randint(1, 9)})
             elif rr < 0.75:
-                ops.append({"c": c, "op": "np.perturb", "kind": "reseed", "seed": g.choice(cfg["seeds"])})
+                ops.append({"c": c, "op": "np.perturb", "kind": "reseed", "seed": G.seed_value(g.choice(cfg["seeds"]))})
             elif rr < 0.9:
                 ops.append({"c": c, "op": "entropy.draw", "n": 1})
             else:
@@ -726,7 +742,7 @@ ASSUMPTIONS = [
 
 REQUIRED_PROBES = ["sources>=2.independence_checkable", "sources>=2.independence_checkable.seeded",
                    "non_source.parents>=2", "equal_sized_environments", "seed0",
-                   "seeded_pair.nontrivial", "seeded_pair.seed0", "seeded_pair.sep.global_reseed",
+                   "seeded_pair.nontrivial", "seeded_pair.seed0", "seeded_pair.numpy_integer_seed", "seeded_pair.sep.global_reseed",
                    "seeded_pair.k>=2.non_source", "peer.k>=2.non_source", "peer_fault.fit", "verbose",
                    "sample_after_scribble_input", "n:none", "n:int", "n:list", "sweep.peer_fault_positions",
                    "peer_fault.predict.raised"] + \
